@@ -11,7 +11,7 @@ Terms are nested tuples:
   ('match', scrut, ((pat, guard, body)...))  ('let', pat, x)   (if-let condition)
   ('return', x) ('closure', path) ('const', path) ('opaque', kind)
 """
-from .thir import peel, show_pat, walk, field_chain, pat_bindings
+from .thir import peel, show_pat, walk, field_chain, pat_bindings, for_loop
 
 
 def pat_simple(p):
@@ -154,6 +154,13 @@ class Sym:
             t = self.ev(n["e"], env)
             self.bind_pat(n["p"], t, env)
             return ("let", show_pat(n["p"]), t)
+        if k == "Match" and n.get("ms", "").startswith("ForLoopDesugar"):
+            fl = for_loop(n)
+            if fl is not None:
+                pat, iterable, body = fl
+                it = self.ev(iterable, env)
+                self.bind_pat(pat, ("elem", it), env)
+                return ("for", show_pat(pat), it, self.ev(body, env))
         if k == "Match":
             if n.get("ms", "").startswith("TryDesugar"):
                 sc = peel(n["e"])
@@ -253,6 +260,10 @@ def fmt(t, depth=0):
         return t[1].split("::")[-1]
     if h == "index":
         return "%s[%s]" % (fmt(t[1], d), fmt(t[2], d))
+    if h == "for":
+        return "for %s in %s %s" % (t[1], fmt(t[2], d), fmt(t[3], d))
+    if h == "elem":
+        return "elem(%s)" % fmt(t[1], d)
     if h == "callind":
         return "(%s)(%s)" % (fmt(t[1], d), ", ".join(fmt(a, d) for a in t[2]))
     if h == "seq":
